@@ -36,6 +36,9 @@ type sctx struct {
 	io     []string       // format flags
 	prefix string         // violation key prefix ("" or "commakey:")
 	memo   *catMemo       // JSON passes: what cat prints per record
+	// tolerateReject: a non-zero exit (not a panic) of the next runs is not a
+	// violation (spellings/values the usage text does not promise to accept).
+	tolerateReject bool
 }
 
 func itoa(i int) string { return strconv.Itoa(i) }
@@ -92,6 +95,10 @@ func (s *sctx) run(main, verbArgs []string) (vf.MlrResult, bool) {
 		if strings.HasPrefix(a, "-") && len(a) > 1 && !(a[1] >= '0' && a[1] <= '9') {
 			s.h.add("flag:" + verbArgs[0] + " " + a)
 		}
+	}
+	if !r.OK() && r.Panic == "" && s.tolerateReject {
+		s.h.add("unconstrained:rejected " + verbArgs[0] + " " + strings.Join(verbArgs[1:], " "))
+		return r, false
 	}
 	if !r.OK() {
 		what := fmt.Sprintf("exit status %d", r.Exit)
